@@ -65,7 +65,7 @@ func monC05(c *drv.Ctx) {
 			}
 		})
 	}
-	nRandom := c.Pick(20000, 2000000)
+	nRandom := c.Pick(100000, 2000000)
 	if c.Flavour == "poison" {
 		nRandom = c.Pick(4000, 200000)
 	}
